@@ -311,7 +311,12 @@ class Repo:
                     break
                 if len(rest) == 1:
                     return v
+                while isinstance(v, SClass) and len(rest) > 2 and rest[1] in v.nested:
+                    v = v.nested[rest[1]]
+                    rest = rest[1:]
                 if isinstance(v, SClass) and len(rest) == 2:
+                    if rest[1] in v.nested:
+                        return v.nested[rest[1]]
                     for c in v.mro():
                         for table in (c.methods, c.props, c.setters):
                             if rest[1] in table and isinstance(c, SClass):
